@@ -62,6 +62,20 @@ def scenario(k, pids, trigger, targ):
             live = [i for i in live if i != p]
             # nothing of the dead node is delivered or resumed any more
             net.parked = [x for x in net.parked if x[0] != p]
+        elif trigger == "primary-dies-twice":
+            # two successive failures: the primary stops, the others elect; then the new primary stops too
+            for round_ in range(2):
+                r = roles(net, live)
+                ps = [i for i in live if r[i][0] == "Primary"]
+                if len(ps) != 1: return verdict(net, live, pids, f"primary-dies-{round_}", hist)
+                p = ps[0]
+                hist.append(f"primary n{p} dies")
+                for j in live:
+                    if j != p: net.disconnect(p, j)
+                live = [i for i in live if i != p]
+                net.parked = [x for x in net.parked if x[0] != p]
+                if not net.settle(rng):
+                    return [Failure(f"election-does-not-terminate:{trigger}", f"parked {net.parked}, ticks {net.ticks}; history {hist}")]
         elif trigger == "rejoin-older":
             # a node leaves and joins again (it keeps its start time only if it did not restart; here it restarts: new, youngest id)
             hist.append(f"n{targ} leaves and a new n{targ} joins")
@@ -93,11 +107,12 @@ def scenarios(tier):
                 S.append((f"k{k}-force-two-{pids}", scenario(k, pids, "force-two", (2, 3))))
                 S.append((f"k{k}-force-two-12-{pids}", scenario(k, pids, "force-two", (1, 2))))
                 S.append((f"k{k}-rejoin-{pids}", scenario(k, pids, "rejoin-older", 3)))
+                S.append((f"k{k}-primary-dies-twice-{pids}", scenario(k, pids, "primary-dies-twice", None)))
     return S
 
 RULE = ("clusters of 2 and 3 real nodes with distinct start times in every join order (permutations of the ages), formed through the real join path with elections running as coroutines: a command that reaches start_election runs on its own thread and parks at a yield point in each of the "
         "two wait loops and before the final pause; the network delivers every deliverable message (seeded-random FIFO order) before any parked election takes one 2 ms turn — messages are faster than the election timeout (NUN_ELECTION_TIMEOUT = 10 ms = 5 turns), so a timeout fires only when the awaited acknowledgement can never arrive. "
-        "Triggers: initial start-up, joins, debug force-election on each node, two forced elections at once, the primary dying (all its connections end), a node leaving and a fresh one joining. At quiescence: exactly one primary, it is the oldest live node, every other node is secondary, every cluster-state names that primary. "
+        "Triggers: initial start-up, joins, debug force-election on each node, two forced elections at once, the primary dying (all its connections end), the next primary dying as well, a node leaving and a fresh one joining. At quiescence: exactly one primary, it is the oldest live node, every other node is secondary, every cluster-state names that primary. "
         "The Lean model (Node.electionBegin / electionResume) runs every primitive operation in lockstep. distinct by trace hash")
 
 def main(tier, seed):
